@@ -311,20 +311,17 @@ Definition vmap_value (dist : list (N * N)) (vm : vcell N) : N * bool :=
   snd r.
 
 Record mstate := {
-  m_parent : list (N * N);                       (* version -> first parent (root has none) *)
+  m_anc : list (N * list N);                     (* version -> GetAncestry: itself, first parent, ... root *)
   m_blocks : list (N * vcell (list N));
   m_map : list (N * vcell N);                    (* supervoxel -> vmap *)
   m_idx : list (N * vcell (option index));       (* None: deleted at that version *)
 }.
-Definition m_init : mstate := {| m_parent := []; m_blocks := []; m_map := []; m_idx := [] |}.
+Definition m_init : mstate := {| m_anc := []; m_blocks := []; m_map := []; m_idx := [] |}.
 
-(* datastore.GetAncestry: v, parent v, ... root *)
-Fixpoint ancestry (fuel : nat) (parent : list (N * N)) (v : N) : list N :=
-  match fuel with
-  | O => [v]
-  | S f => v :: match aget N.eqb v parent with Some p => ancestry f parent p | None => [] end
-  end.
-Definition anc (s : mstate) (v : N) : list N := ancestry (length (m_parent s)) (m_parent s) v.
+(* datastore.GetAncestry: v, parent v, ... root.  The walk over first parents is stored when the
+   version is created; a version nobody created yet (the root) is its own ancestry. *)
+Definition anc (s : mstate) (v : N) : list N :=
+  match aget N.eqb v (m_anc s) with Some a => a | None => [v] end.
 
 (* VCache.mapLabel (vcache.go:78), before and after C08-1 *)
 Definition map_label (fx : fixes) (s : mstate) (v : N) (sv : N) : N * bool :=
@@ -357,15 +354,17 @@ Definition view (s : mstate) (v : N) : fstate :=
 Definition vput {V} (v k : N) (x : V) (m : list (N * vcell V)) : list (N * vcell V) :=
   aset N.eqb k (aset N.eqb v x (match aget N.eqb k m with Some c => c | None => [] end)) m.
 
-(* store the result of a flat step at version v: every key of the new flat state is written at v,
-   index keys that disappeared get a tombstone *)
+(* store the result of a flat step at version v: every key of the new flat state is written at v
+   (the first entry of a key is the one that counts, so it is written last), index keys that
+   disappeared get a tombstone *)
 Definition write_back (s : mstate) (v : N) (old new : fstate) : mstate :=
-  {| m_parent := m_parent s;
-     m_blocks := fold_left (fun m kx => vput v (fst kx) (snd kx) m) (f_vox new) (m_blocks s);
-     m_map := fold_left (fun m kx => vput v (fst kx) (snd kx) m) (f_map new) (m_map s);
-     m_idx := fold_left (fun m kx => vput v (fst kx) (Some (snd kx)) m) (f_idx new)
-                (fold_left (fun m kx => if ahas N.eqb (fst kx) (f_idx new) then m else vput v (fst kx) None m)
-                           (f_idx old) (m_idx s)) |}.
+  {| m_anc := m_anc s;
+     m_blocks := fold_right (fun kx m => vput v (fst kx) (snd kx) m) (m_blocks s) (f_vox new);
+     m_map := fold_right (fun kx m => vput v (fst kx) (snd kx) m) (m_map s) (f_map new);
+     m_idx := fold_right (fun kx m => vput v (fst kx) (Some (snd kx)) m)
+                (fold_right (fun kx m => if ahas N.eqb (fst kx) (f_idx new) then m else vput v (fst kx) None m)
+                            (m_idx s) (f_idx old))
+                (f_idx new) |}.
 
 Inductive mop :=
 | MData (v : N) (o : op)
@@ -381,8 +380,9 @@ Definition mstep (fx : fixes) (s : mstate) (o : mop) : res mstate :=
     | Panic => Panic
     end
   | MNewVersion p c =>
-    if ahas N.eqb c (m_parent s) || (c =? p) then Err
-    else Ok {| m_parent := aset N.eqb c p (m_parent s); m_blocks := m_blocks s; m_map := m_map s; m_idx := m_idx s |}
+    if ahas N.eqb c (m_anc s) || memN c (anc s p) then Err
+    else Ok {| m_anc := aset N.eqb c (c :: anc s p) (m_anc s);
+               m_blocks := m_blocks s; m_map := m_map s; m_idx := m_idx s |}
   end.
 
 (* ================= observations: every read endpoint as a function of the flat state ======= *)
